@@ -3,19 +3,33 @@ from h5 import conf, gen, lean, lexical, trees, wire
 
 ID = "C07"
 PROPS_MODULE = "H5.Props.C07"
+# C07b: the END-TO-END identity theorem on the models for the explicit grammar G0 (H5.Props.C07bGrammar):
+#   C07_identity : G0 t -> Pipeline.roundTrip {} {omitOptionalTags := false} t = ok (t, out, [])     C07_no_errors
+# the top module states the end-to-end theorems (C07_identity, C07_no_errors, roundTrip_doc); `#print axioms` on them covers the
+# 21 helper modules (C07bTok*, C07bStep*, C07bRun*, ...) transitively, and the forbidden-token grep covers their sources
+EXTRA_PROPS_MODULES = ["H5.Props.C07b", "H5.Props.C07bGrammar"]
+
 GEN_MODULES = ["Serializer", "OptionalTags", "Constants", "Dispatch", "ParserLiterals"]
 CORRESPONDENCE_OPS = ["roundtrip"]
 SOURCES = ["html5lib/serializer.py", "html5lib/filters/optionaltags.py", "html5lib/filters/alphabeticalattributes.py",
            "html5lib/treewalkers/base.py", "html5lib/treewalkers/etree.py", "html5lib/treewalkers/dom.py", "html5lib/constants.py"]
-LEVEL = "translation_validation"
+LEVEL = "proof"
 TRUSTED = ["the composed Lean pipeline H5.Model.Pipeline.roundTrip = walker ∘ filters ∘ serializer ∘ (tokenizer + tree builder), "
            "each component a hand model tied to /repo by its own correspondence, and the composition tied by op roundtrip",
            "G-conf (tools/h5/conf.py): the grammar of 'conforming document' used here; each generated document is first parsed "
            "from its explicit markup and must give the intended tree with no parse error",
-           "the identity theorem itself (conforming t → roundTrip t = t) is not proved: decided by search on the real code"]
+           "the identity theorem is PROVED on the models for the grammar G0 only (H5.Props.C07b: C07_identity, C07_no_errors; "
+           "default serializer options, omit_optional_tags=False); outside G0 / for other options it is decided by search on the real code",
+           "G0 membership of a generated document is decided by the Lean definition itself (driver op g0), and every document in G0 "
+           "is run through the REAL library with the theorem's options: the re-parsed tree must be the document and both error lists empty "
+           "(oracle family G0-identity)"]
 RULE = ("G-conf trees (depth <= 5) x random serializer option combinations (quoting mode/char, omission, minimisation, "
         "solidus, escaping flags, alphabetical attributes, output encoding in {none, utf-8, ascii}) x walker in {etree, dom}; "
-        "oracle: parse(render(tree)) == tree; failing trees are shrunk and classified; non-trivial = every document")
+        "oracle: parse(render(tree)) == tree; failing trees are shrunk and classified; non-trivial = every document.  "
+        "G0-identity: every G-conf document and every document of the dedicated G0 generator (random trees of the grammar of "
+        "H5.Props.C07bGrammar plus near misses) is classified by the Lean definition G0 (op g0); for the members the real round trip with "
+        "default options / omit_optional_tags=False (walkers etree and dom) must give the document back with no serializer error "
+        "and no parse error, and the model's roundTrip must agree with it (op roundtrip)")
 
 
 def abstract_of(tree, kind):
@@ -283,6 +297,148 @@ def one(ctx, doc, opts, encoding, kind, reqs, reals, src):
         reals.append("ok %s | %s | %s" % (trees.enc_tree_sexpr(a1), wire.enc_str(out), wire.enc_list(wire.enc_str(e) for e in serrs)))
 
 
+# ---------------------------------------------------------------------------------------------------------------------
+# G0-identity: the class of documents of the proved theorem (H5.Props.C07b), checked on the real library
+# ---------------------------------------------------------------------------------------------------------------------
+G0_OPTS = {"omit_optional_tags": False}
+G0_ORDINARY = ["span", "abbr", "cite", "dfn", "q", "sub", "sup", "var", "kbd", "samp", "mark", "time", "data", "bdi", "bdo",
+               "label", "output", "ruby", "ins", "del", "x-foo", "video", "audio", "canvas", "map", "legend", "meter",
+               "progress", "slot", "picture", "datalist"]
+G0_BLOCK = ["div", "section", "article", "aside", "nav", "header", "footer", "main", "address", "blockquote", "center",
+            "details", "dir", "dl", "fieldset", "figcaption", "figure", "hgroup", "menu", "ol", "summary", "ul"]
+G0_VOID = ["br", "img", "area", "embed", "wbr", "param", "source", "track"]
+G0_FMT = ["a", "b", "big", "code", "em", "font", "i", "s", "small", "strike", "strong", "tt", "u"]
+G0_COMMENTS = ["c", " a comment ", "x-y", "<b>", "&amp;", "a>b", "-x", "!", "[if IE]", "<!-x"]
+# near misses (mostly outside G0; the Lean definition decides): formatting / special elements, p in p, bad comments, ...
+G0_NEAR = ["b", "i", "em", "a", "pre", "h1", "li", "table", "form", "button", "hr", "input", "keygen", "dialog", "textarea",
+           "select", "object", "p", "div"]
+
+
+class G0Gen(object):
+    def __init__(self, rng):
+        self.rng = rng
+        self.g = conf.G(rng)
+
+    def attrs(self):
+        return self.g.attrs()
+
+    def forest(self, depth, in_p, near, fm=(), parent="body"):
+        out = []
+        if parent in ("ul", "ol", "dl") and not near:
+            # list containers: items only (the grammar also allows other content there; the near-miss family produces it)
+            for _ in range(self.rng.randint(0, 3)):
+                nm = "li" if parent != "dl" else self.rng.choice(["dt", "dd"])
+                out.append(("elem", conf.H, nm, self.attrs(), self.forest(depth + 1, False, near, fm, nm)))
+            return out
+        for _ in range(self.rng.randint(0, 4)):
+            r = self.rng.random()
+            if not in_p and self.rng.random() < 0.12 and depth < 5:
+                k = self.rng.random()
+                if k < 0.4 and (parent not in ("h1", "h2", "h3", "h4", "h5", "h6") or near):
+                    nm = self.rng.choice(["h1", "h2", "h3", "h4", "h5", "h6"])
+                    out.append(("elem", conf.H, nm, self.attrs(), self.forest(depth + 1, False, near, fm, nm)))
+                elif k < 0.6:
+                    out.append(("elem", conf.H, "hr", self.attrs(), []))
+                else:
+                    nm = self.rng.choice(["ul", "ol", "dl"])
+                    out.append(("elem", conf.H, nm, self.attrs(), self.forest(depth + 1, False, near, fm, nm)))
+                continue
+            if r < 0.30 or depth >= 5:
+                t = self.rng.choice(conf.TEXTS)
+                out.append(("text", t))
+            elif r < 0.38:
+                out.append(("comment", self.rng.choice(G0_COMMENTS + (["a--b", "x-", ">x", "->"] if near else []))))
+            elif r < 0.48:
+                out.append(("elem", conf.H, self.rng.choice(G0_VOID), self.attrs(), []))
+            elif r < 0.66:
+                out.append(("elem", conf.H, self.rng.choice(G0_ORDINARY), self.attrs(), self.forest(depth + 1, in_p, near, fm, 'x')))
+            elif r < 0.80:
+                nm = self.rng.choice(G0_FMT)
+                if nm not in fm or (near and self.rng.random() < 0.5):
+                    extra = [(None, "href", self.rng.choice(["#x", "http://e/?a=1&b=2"]))] if nm == "a" and self.rng.random() < 0.7 else []
+                    out.append(("elem", conf.H, nm, self.g.attrs(extra), self.forest(depth + 1, in_p, near, fm + (nm,), nm)))
+            elif r < 0.90 and (not in_p or near):
+                nm = self.rng.choice(G0_BLOCK)
+                out.append(("elem", conf.H, nm, self.attrs(), self.forest(depth + 1, False, near, fm, nm)))
+            elif r < 0.97 and (not in_p or near):
+                out.append(("elem", conf.H, "p", self.attrs(), self.forest(depth + 1, True, near, fm, "p")))
+            elif near:
+                nm = self.rng.choice(G0_NEAR)
+                out.append(("elem", conf.H, nm, self.attrs(), self.forest(depth + 1, in_p, near, fm, nm)))
+        return self.g.norm(out)
+
+    def document(self, near=False):
+        body = self.forest(0, False, near)
+        head = []
+        r = self.rng.random()
+        if r < 0.6:
+            t = self.rng.choice(["t", "a & b", "<t>", " x ", "</title", "caf\u00e9 &amp;", "a\nb"] + conf.TEXTS)
+            head = [("elem", conf.H, "title", [], [("text", t)])]
+        elif r < 0.7:
+            head = [("elem", conf.H, "title", [], [])]
+        elif near and r < 0.8:
+            head = [("elem", conf.H, "title", [(None, "id", "t")], [("text", "x")])]
+        html = ("elem", conf.H, "html", [], [("elem", conf.H, "head", [], head), ("elem", conf.H, "body", [], body)])
+        return ("doc", [("doctype", "html", None, None), html])
+
+
+def g0_real(doc, kind):
+    """the real round trip with the theorem's options, starting from the explicit markup of doc:
+    -> (tree parsed from the markup, its parse errors, serializer output, serializer errors, re-parsed tree, re-parse errors)"""
+    import html5lib
+    from html5lib.serializer import HTMLSerializer
+    tb = html5lib.getTreeBuilder("etree", fullTree=True) if kind == "etree" else html5lib.getTreeBuilder("dom")
+    p = html5lib.HTMLParser(tree=tb)
+    t0 = p.parse(conf.render(doc))
+    s = HTMLSerializer(inject_meta_charset=False, **G0_OPTS)
+    out = s.render(html5lib.getTreeWalker(kind)(t0))
+    p2 = html5lib.HTMLParser(tree=tb)
+    t1 = p2.parse(out)
+    return abstract_of(t0, kind), list(p.errors), out, list(s.errors), abstract_of(t1, kind), list(p2.errors)
+
+
+def g0_identity(ctx, docs, reqs, reals):
+    """docs: [(source label, document)].  Lean decides membership (op g0); members are checked on the real library."""
+    if not ctx.driver_ok or not docs:
+        return
+    answers = lean.run_driver(["g0 " + trees.enc_tree(d) for _, d in docs])
+    for (src, doc), ans in zip(docs, answers):
+        if ans not in ("ok 1", "ok 0"):
+            ctx.fail("g0-op-bad-answer", "the driver did not decide G0 membership", {"answer": ans[:200], "tree": trees.enc_tree(doc)[:400]})
+            continue
+        ctx.case("g0", trees.enc_tree(doc), nontrivial=True)
+        if ans == "ok 0":
+            ctx.count("G0-identity:outside-G0:" + src)
+            continue
+        ctx.count("G0-identity:in-G0:" + src)
+        for kind in ("etree", "dom"):
+            try:
+                a0, perrs0, out, serrs, a1, perrs1 = g0_real(doc, kind)
+            except Exception as e:
+                ctx.fail("G0-identity:raises:%s" % type(e).__name__, "the real round trip raised on a document of G0",
+                         {"markup": conf.render(doc)[:800], "walker": kind})
+                continue
+            ctx.case("G0-identity", "%s|%s" % (conf.render(doc), kind), nontrivial=True,
+                     sample={"markup": conf.render(doc)[:160], "walker": kind, "family": "G0-identity"})
+            inp = {"markup": conf.render(doc)[:800], "serialized": out[:800], "walker": kind, "options": G0_OPTS}
+            if a0 != doc or perrs0:
+                # the explicit source markup is not the theorem's text, but a G0 document written with every tag must parse to itself
+                ctx.fail("G0-identity:source-markup-not-parsed-as-written", "explicit markup of a G0 document parsed to another tree / with errors",
+                         dict(inp, errors=[str(e) for e in perrs0][:5]))
+                continue
+            if a1 != doc:
+                ctx.fail("G0-identity:tree-differs", "THEOREM C07_identity contradicted on the real library: parse(serialize(t)) != t for t in G0", inp)
+            if serrs:
+                ctx.fail("G0-identity:serializer-errors", "THEOREM C07_no_errors contradicted on the real library: serializer reported errors on t in G0",
+                         dict(inp, errors=serrs[:5]))
+            if perrs1:
+                ctx.fail("G0-identity:parse-errors", "THEOREM C07_no_errors contradicted on the real library: parse errors on serialize(t), t in G0",
+                         dict(inp, errors=[str(e) for e in perrs1][:5]))
+            if kind == "etree":
+                reqs.append("roundtrip %s 0 0 0 %s" % (lexical.opts_word(G0_OPTS), trees.enc_tree(doc)))
+                reals.append("ok %s | %s | %s" % (trees.enc_tree_sexpr(a1), wire.enc_str(out), wire.enc_list(wire.enc_str(e) for e in serrs)))
+
+
 def witness_case(ctx, w):
     import random
     doc = ("doc", [("doctype", "html", None, None)] + [None])
@@ -294,16 +450,42 @@ def witness_case(ctx, w):
         ctx.fail(classify(small, opts, None, "etree"), "parse(serialize(tree)) differs from the conforming tree", {"markup": text, "options": opts})
 
 
+def regression_docs():
+    """conforming documents exercising the repaired serializer finding C08-foreign-raw (f446f43: text of a foreign
+    style/script is escaped): they must round-trip"""
+    H, S, M = gen.HTML_NS, gen.SVG_NS, gen.MATHML_NS
+
+    def doc(body):
+        return ("doc", [("doctype", "html", None, None),
+                        ("elem", H, "html", [], [("elem", H, "head", [], []), ("elem", H, "body", [], body)])])
+    return [doc([("elem", S, "svg", [], [("elem", S, "style", [], [("text", "<b>&</b>")])])]),
+            doc([("elem", M, "math", [], [("elem", M, "script", [], [("text", "a<b")])]), ("elem", H, "p", [], [("text", "t")])])]
+
+
 def run(ctx):
     reqs, reals = [], []
+    for doc in regression_docs():
+        for kind in ("etree", "dom"):
+            for opts in ({"omit_optional_tags": False}, {"omit_optional_tags": True, "quote_attr_values": "always"}):
+                one(ctx, trees.merge_text(doc), dict(opts), None, kind, reqs, reals, "regression-f446f43")
+    g0docs = []
+    gg = G0Gen(ctx.rng)
+    for i in range(ctx.scale(400, 6000)):
+        g0docs.append(("G0-gen", trees.merge_text(gg.document(near=False))))
+    for i in range(ctx.scale(200, 3000)):
+        g0docs.append(("G0-near", trees.merge_text(gg.document(near=True))))
     for i in range(ctx.scale(700, 20000)):
         doc = trees.merge_text(conf.G(ctx.rng).document())
+        g0docs.append(("G-conf", doc))
         opts = lexical.random_opts(ctx.rng)
         opts["omit_optional_tags"] = ctx.rng.random() < 0.6
         if ctx.rng.random() < 0.2:
             opts["alphabetical_attributes"] = True
         enc = ctx.rng.choice([None, None, None, "utf-8", "ascii"])
         one(ctx, doc, opts, enc, "dom" if i % 4 == 0 else "etree", reqs, reals, "G-conf")
+    g0_identity(ctx, g0docs, reqs, reals)
+    if not any(k.startswith("G0-identity:in-G0:G0-gen") for k in ctx.dist) and ctx.driver_ok:
+        ctx.fail("G0-identity:vacuous", "no generated document fell in G0", {})
     if ctx.driver_ok:
         ctx.compare("roundtrip", reqs, reals, lean.run_driver(reqs))
 
